@@ -34,6 +34,9 @@ Variants(cmd) == ReplySets[SeqOf(cmd).parser]
 Alphabet(cmd) ==
   LET vs == Variants(cmd)
       ws == {Witness(vs[i].ty) : i \in 1..Len(vs)}
+            \* a status information that reports success (result code 00) and nothing else
+            \cup (IF \E i \in 1..Len(vs) : vs[i].ty = "StatusInformation"
+                  THEN {Fr(EncPacket("StatusInformation", [MinVal("StatusInformation") EXCEPT !.result_code = << <<>> >>]), FALSE)} ELSE {})
       ms == {Malformed(vs[i].ty) : i \in 1..Len(vs)} IN
   ({AckFrame, NackFrame, ForeignFrame} \cup ws \cup ms) \cup
   (IF cmd = "WriteFile" THEN {Fr(EncPacket("feig_RequestForData", [tlv |-> <<[file |-> <<[file_id |-> << <<1,6>> >>, file_offset |-> << <<>> >>, file_size |-> <<>>, payload |-> <<>>]>>]>>]), FALSE),
